@@ -229,6 +229,9 @@ def handle (op : String) (args : List String) : String :=
   | "dump", [t] => match (SExpr.parse t).bind Tree.ofSExpr with
     | some t => "ok\t" ++ (SExpr.str (dump t)).render
     | none => bad
+  | "inlDomain", [e] => match parseExpr e with
+    | some e => "ok\t" ++ (if inlB e then "true" else "false")
+    | none => bad
   | "selfDelim", [t] => match (SExpr.parse t).bind Tree.ofSExpr with
     | some t => "ok\t" ++ (if selfDelimiting t then "true" else "false")
     | none => bad
@@ -270,6 +273,12 @@ def handle (op : String) (args : List String) : String :=
   | "capture", [snap, attrs, ctors, e] =>
     match parseSnapshot snap, parseAttrTable attrs, (SExpr.parse ctors).bind strsOfSExpr, parseExpr e with
     | some snap, some attrs, some ctors, some e => okE (parseCallable snap attrs ctors e)
+    | _, _, _, _ => bad
+  | "inlDomainCap", [snap, attrs, ctors, e] =>
+    -- hypothesis of resolveCalled_refines on the expression the inliner is given (after capture rewriting)
+    match parseSnapshot snap, parseAttrTable attrs, (SExpr.parse ctors).bind strsOfSExpr, parseExpr e with
+    | some snap, some attrs, some ctors, some e =>
+      "ok\t" ++ (if inlB (rewriteCaptured snap attrs ctors [] e) then "true" else "false")
     | _, _, _, _ => bad
   | "resolveCalled", [e] => match parseExpr e with
     | some e => okE (resolveCalled [] e)
